@@ -4,21 +4,38 @@ pub mod slices {
     use vstd::prelude::*;
     use crate::spec::*;
     use crate::shims::memmap2::MmapMut;
+    /// what `X[a..b].copy_from_slice(src)` needs and does, per kind of X
+    pub trait CopyTarget {
+        spec fn copy_pre(&self, a: usize, b: usize, src: Seq<u8>, w: World) -> bool;
+        spec fn copy_post(&self, fin: &Self, a: usize, b: usize, src: Seq<u8>, w0: World, w1: World) -> bool;
+    }
     /// writing through a shared file mapping writes the file (page-cache coherent with
     /// read(2)/rename(2)); a kill in the middle of the copy may leave any mixture of old and
     /// new bytes in that range
+    impl CopyTarget for MmapMut {
+        open spec fn copy_pre(&self, a: usize, b: usize, src: Seq<u8>, w: World) -> bool {
+            a <= b <= self@.len && b - a == src.len() && w.fs.files.contains_key(self@.path) && w.fs.files[self@.path].len() == self@.len
+        }
+        open spec fn copy_post(&self, fin: &Self, a: usize, b: usize, src: Seq<u8>, w0: World, w1: World) -> bool {
+            &&& fin@ == self@
+            &&& w1.healthy == w0.healthy && hist_ext(w0, w1) && (world_wf(w0) ==> world_wf(w1))
+            &&& w1.fs == (Fs { files: w0.fs.files.insert(self@.path,
+                    w0.fs.files[self@.path].subrange(0, a as int) + src + w0.fs.files[self@.path].subrange(b as int, self@.len as int)), ..w0.fs })
+            &&& forall|i: int| #![trigger w1.hist[i]] w0.hist.len() <= i < w1.hist.len() ==>
+                    same_except(w0.fs, w1.hist[i], self@.path) && w1.hist[i].dirs == w0.fs.dirs && w1.hist[i].files.contains_key(self@.path)
+        }
+    }
+    /// an in-memory buffer: the file system is not involved
+    impl CopyTarget for [u8] {
+        open spec fn copy_pre(&self, a: usize, b: usize, src: Seq<u8>, w: World) -> bool { a <= b <= self@.len() && b - a == src.len() }
+        open spec fn copy_post(&self, fin: &Self, a: usize, b: usize, src: Seq<u8>, w0: World, w1: World) -> bool {
+            w1 == w0 && fin@ == self@.subrange(0, a as int) + src + self@.subrange(b as int, self@.len() as int)
+        }
+    }
     #[verifier::external_body]
-    pub fn copy_into(dst: &mut MmapMut, a: usize, b: usize, src: &[u8], Tracked(w): Tracked<&mut World>)
-        requires
-            a <= b <= old(dst)@.len, b - a == src@.len(),
-            old(w).fs.files.contains_key(old(dst)@.path), old(w).fs.files[old(dst)@.path].len() == old(dst)@.len,
-        ensures
-            final(dst)@ == old(dst)@,
-            final(w).healthy == old(w).healthy, hist_ext(*old(w), *final(w)), world_wf(*old(w)) ==> world_wf(*final(w)),
-            final(w).fs == (Fs { files: old(w).fs.files.insert(old(dst)@.path,
-                old(w).fs.files[old(dst)@.path].subrange(0, a as int) + src@ + old(w).fs.files[old(dst)@.path].subrange(b as int, old(dst)@.len as int)), ..old(w).fs }),
-            forall|i: int| #![trigger final(w).hist[i]] old(w).hist.len() <= i < final(w).hist.len() ==>
-                same_except(old(w).fs, final(w).hist[i], old(dst)@.path) && final(w).hist[i].dirs == old(w).fs.dirs && final(w).hist[i].files.contains_key(old(dst)@.path),
+    pub fn copy_into<D: CopyTarget + ?Sized>(dst: &mut D, a: usize, b: usize, src: &[u8], Tracked(w): Tracked<&mut World>)
+        requires old(dst).copy_pre(a, b, src@, *old(w)),
+        ensures old(dst).copy_post(final(dst), a, b, src@, *old(w), *final(w)),
     { unimplemented!() }
 }
 
